@@ -60,6 +60,20 @@ CHECKS["C10"] = dict(engine="E2", cat="model_checking", design="4/C10",
                      note="histories longer than the bound; the reference machine is my reading of the statement; "
                           "state agreement reads the validator's _onsets mapping when it exists")
 
+CHECKS["C09"] = dict(engine="E2", cat="model_checking", design="4/C09",
+                     technique="breadth-first exploration of all operation histories up to a depth bound on real objects "
+                               "(replay-by-rebuild) against a nested-list reference model; exhaustive candidate grammar "
+                               "for acceptance",
+                     text="Every history of <= 4 (thorough 6) operations from {expand, shrink, copy-and-continue, validate, "
+                          "print, sort} on 12 start annotations (plain / valued / unit-valued / nested / empty definitions, "
+                          "already expanded groups, unknown Def) is executed on a fresh HedString and compared after every "
+                          "step with a reference model (canonical tree up to sibling order, originals of copies unchanged, "
+                          "no cycles). All 1344 definition candidates of the shape grammar are judged against the "
+                          "statement's literal acceptance predicate through both entry points, all ordered duplicate pairs, "
+                          "and every permutation / single edit of each expansion for Def-expand acceptance.",
+                     note="definition menu fixed (5 definitions over schema 8.3.0); the 'must accept' direction is judged "
+                          "only for definitions with no '#' or exactly one on a value tag")
+
 PENDING_REASON = "check not built yet in this revision (planned in DESIGN.md section 4); not claimed until it is"
 
 
